@@ -350,6 +350,16 @@ def Full.step (f : Full) (line : String) : Full :=
       | [op, r] => r != "panic" && r != "hang" && r != modelOut op
       | _ => false)
     { f with w := if diffs.isEmpty then w else w.fail "corr" "afterclose" s!"closed store of peer {toks.getD 1 ""}: implementation {diffs}, lifecycle model disagrees" }
+  | "burst" =>
+    -- heads of several databases delivered back to back: each database of the receiver must now list
+    -- what the sender's same database held (nothing was lost, cut or rejected in these scenarios)
+    let w := bump f.w
+    let q := toks.getD 1 ""
+    let snd := namesToNums (arg toks "sender")
+    let rcv := namesToNums (arg toks "receiver")
+    let missing := snd.filter (fun n => !rcv.contains n)
+    { f with w := if missing.isEmpty then w else
+        w.fail "C09" "burst" s!"peer {q} database {arg toks "db"}: heads of several databases arrived back to back from peer {arg toks "from"}; this database still lacks {showNums (sortNums missing)} (the other databases' messages disturbed it)" }
   | "leveldropped" =>
     -- Drop through an old handle after the database was reopened, over the library's own cache manager
     let w := bump f.w
